@@ -13,6 +13,7 @@ import (
 
 	"verifharness/gen"
 	"verifharness/mon"
+	"verifharness/oracle"
 )
 
 func init() { reg("C17", "hist", c17hist) }
@@ -171,6 +172,16 @@ func c17hist(c *Ctx) {
 					rl.title = strings.ToUpper(base[:1]) + base[1:]
 				default:
 					rl.title = base
+				}
+				switch {
+				case r.P(4):
+					rl.title = "" // an empty title is a title
+				case r.P(8):
+					rl.title = gen.Pick(r, []string{" ", "\t"}) + rl.title
+				case r.P(8):
+					rl.title += gen.Pick(r, []string{" ", "\n"})
+				case r.P(6):
+					rl.title = gen.Pick(r, []string{"qu\"ote", "back\\slash", "ctl\x01x", "uni\u00e9"}) + fmt.Sprint(r.Intn(4))
 				}
 				if r.P(15) && len(e.regs) > 0 {
 					rl.title = gen.Pick(r, e.regs).title // colliding title
@@ -360,6 +371,18 @@ func c17hist(c *Ctx) {
 					if len(ws) != 1 || ws[0].W != wantW {
 						fail("routing", "error-device", fmt.Sprintf("custom level %d (error device requested: %v) was routed to %s", int(l), rl.errDev, fmtEvents(e.log.Events())))
 						return
+					}
+					// the tag printed in a colored record is the level's short tag of the configured width
+					clg := slog.New("tag").Root()
+					clg.SetWriter(e.w1).SetErrorWriter(e.w1).SetLevel(slog.AlwaysLevel).SetColorMode(true)
+					e.log.Reset()
+					clg.WriteThru(bg, l, c10ts, thePC, "tag-probe", nil)
+					if ws := e.log.Writes(""); len(ws) == 1 {
+						text := oracle.StripANSI(ws[0].Data)
+						if want := "[" + l.ShortTag(3) + "]"; !strings.Contains(text, " "+want+" ") {
+							fail("short-tag", "colored-record", fmt.Sprintf("level %d (%q): the colored record %q does not carry the tag %q", int(l), rl.title, clip(text, 80), want))
+							return
+						}
 					}
 					if got, err := parseQuiet(rl.title); err != nil || got != l {
 						fail("title", "answers-to-title", fmt.Sprintf("ParseLevel(%q) = %d, %v; registered for %d", rl.title, int(got), err, int(l)))
